@@ -101,12 +101,13 @@ def step(entry, model, cfg, outdir, tag):
 
 
 def run_case(case):
-    d = os.path.join(case["sdir"], "h%d" % case["seed"])
+    d = os.path.join(case["sdir"], "%s%d" % ("h" if case["part"] == "history" else "s", case["seed"]))  # history and hash-seed cases may share a seed value: never a directory
     os.makedirs(d, exist_ok=True)
     rng = np.random.default_rng(np.random.SeedSequence([1414, case["seed"]]))
     viol = {}
     counters = {"histories": 0, "history_steps": 0, "baselines": 0, "twins": 0, "hash_seed_runs": 0, "entry_point_mixes": 0, "byte_comparisons": 0, "csv_comparisons": 0}
     sets = {"hash_seeds": set(), "history_kinds": set()}
+    inconc = [None]
 
     def v(mech, msg, wit):
         viol.setdefault(mech, {"mech": mech, "msg": msg, "witness": wit})
@@ -132,7 +133,15 @@ def run_case(case):
                 counters["hash_seed_runs"] += 1
                 sets["hash_seeds"].add(str(hs))
                 wit = {"family": case["fam"], "nseed": case["seed"], "cfg": cfg, "hashseed": hs}
-                if not res or not res[0]["ok"]:
+                if not res:
+                    res, err = run_history(d, "hs%dr" % hs, [step("main", model, cfg, os.path.join(d, "hs%dr" % hs), "hs")], hashseed=hs)
+                if not res:
+                    # the runner process itself ended without a result (killed, out of memory, interpreter crash) twice: no step recorded an outcome, so there
+                    # is nothing to compare - not a verdict about the compiler (a crash of a single compilation is C13's business)
+                    counters["hash_seed_runner_died"] = counters.get("hash_seed_runner_died", 0) + 1
+                    inconc[0] = "hash-seed runner died twice without a result"
+                    continue
+                if not res[0]["ok"]:
                     v("fails-under-other-hash-seed", "compiles with PYTHONHASHSEED=0 but not with %d: %s" % (hs, res and res[0].get("error")), wit)
                     continue
                 counters["byte_comparisons"] += 1
@@ -233,7 +242,11 @@ def run_case(case):
         counters["histories"] += 1
         wit = {"kind": kind, "fam": case["fam"], "fam2": case["fam2"], "seed": case["seed"], "cfgA": cfgA, "cfgB": cfgB, "sequence": [(e, os.path.basename(m)) for e, m, c in seq]}
         if res is None:
-            v("history-runner-died", err, wit)
+            res, err = run_history(d, "hist2", steps, between=None)
+        if res is None:
+            # see above: a runner that ends without a result twice gives no verdict (step failures proper are recorded by the runner and judged below)
+            counters["history_runner_died"] = counters.get("history_runner_died", 0) + 1
+            inconc[0] = "history runner died twice without a result: %s" % (err or "")[-200:]
         else:
             base_cache = {}
             for i, ((e, m, c), r) in enumerate(zip(seq, res)):
@@ -273,7 +286,7 @@ def run_case(case):
     import shutil
 
     shutil.rmtree(d, ignore_errors=True)
-    return {"violations": list(viol.values()), "counters": counters, "sets": {k: sorted(x) for k, x in sets.items()}, "key": key,
+    return {"violations": list(viol.values()), "inconclusive": inconc[0], "counters": counters, "sets": {k: sorted(x) for k, x in sets.items()}, "key": key,
             "sample": {"part": case["part"], "kind": case.get("kind"), "fam": case["fam"]}}
 
 
